@@ -43,7 +43,16 @@ impl HavokTagType {
     }
 }
 
+/// Struct arrays nest (a column of a struct array can be a struct array again); a file that nests
+/// them deeper than this is rejected instead of recursing until the stack overflows.
+const MAX_ARRAY_DEPTH: usize = 32;
+
 pub struct HavokBinaryTagFileReader<'a> {
+    /// How many more elements of struct arrays may be created: one per byte of the file in total.
+    /// (An element whose class stores no member data takes no input, so the check of an array
+    /// length against the remaining input does not bound the number of elements of nested or
+    /// repeated struct arrays.)
+    struct_elements_left: usize,
     file_version: u8,
     remembered_strings: Vec<Arc<str>>,
     remembered_types: Vec<Arc<HavokObjectType>>,
@@ -73,6 +82,7 @@ impl<'a> HavokBinaryTagFileReader<'a> {
         let objects = Vec::new();
 
         Self {
+            struct_elements_left: reader.raw().len(),
             file_version,
             remembered_strings,
             remembered_types,
@@ -167,7 +177,7 @@ impl<'a> HavokBinaryTagFileReader<'a> {
                 return None;
             }
 
-            HavokValue::Array(self.read_array(member, array_len as usize)?)
+            HavokValue::Array(self.read_array(member, array_len as usize, 0)?)
         } else {
             match member.type_ {
                 HavokValueType::BYTE => HavokValue::Integer(self.reader.try_read()? as i32),
@@ -187,7 +197,12 @@ impl<'a> HavokBinaryTagFileReader<'a> {
         &mut self,
         member: &HavokObjectTypeMember,
         array_len: usize,
+        depth: usize,
     ) -> Option<Vec<HavokValue>> {
+        if depth > MAX_ARRAY_DEPTH {
+            return None;
+        }
+
         let base_type = member.type_.base_type();
         Some(match base_type {
             HavokValueType::STRING => (0..array_len)
@@ -197,6 +212,7 @@ impl<'a> HavokBinaryTagFileReader<'a> {
                 let target_type = self.find_type(member.class_name.as_ref()?)?;
                 let data_existence = self.read_bit_field(target_type.member_count())?;
 
+                self.struct_elements_left = self.struct_elements_left.checked_sub(array_len)?;
                 let mut result_objects = Vec::new();
                 for _ in 0..array_len {
                     let object = Arc::new(RefCell::new(HavokObject::new(
@@ -215,7 +231,7 @@ impl<'a> HavokBinaryTagFileReader<'a> {
                             // unimplemented
                             return None;
                         } else {
-                            let data = self.read_array(member, array_len)?;
+                            let data = self.read_array(member, array_len, depth + 1)?;
                             for (index, item) in data.into_iter().enumerate() {
                                 result_objects
                                     .get(index)?
